@@ -1292,6 +1292,17 @@ func genSubScenario(r *rand.Rand, sc int, profile string) subScenario {
 			}
 			d.Paths = append(d.Paths, p)
 		}
+		if (profile == "once" || profile == "static") && r.Intn(5) == 0 {
+			// two list entries whose keys are related as strings only (x and x/y), the shorter one first
+			pre := genSubPath(r, false).Elems
+			if len(pre) > 1 {
+				pre = pre[:1]
+			}
+			mk := func(k string) pathDesc {
+				return pathDesc{Elems: append(append([]elemDesc{}, pre...), elemDesc{Name: "l", Keys: map[string]string{"k1": k}})}
+			}
+			d.Paths = append([]pathDesc{mk("x"), mk("x/y")}, d.Paths...)
+		}
 		if profile == "overlap" && len(d.Paths) > 0 {
 			// overlapping subscription paths: a path and one of its prefixes / a glob variant
 			p := d.Paths[0]
